@@ -64,6 +64,7 @@ EXPECTED_PROBES = {
             'cbin_index_list_not_implemented'],
     'C02': ['reflected_operator', 'cols_before_arith', 'cols_after_arith', 'depth_ge_3',
             'sibling_reread', 'integer_division', 'same_operator_twice_in_a_row',
+            'numpy_scalar_operand', 'boolean_mask_selection',
             'equal_cols_on_two_handles'],
     'C03': ['spike_on_chunk_bound', 'spike_at_0', 'spike_at_last', 'window_exceeds_start',
             'window_exceeds_end', 'window_longer_than_recording', 'unsigned_spikes',
@@ -101,6 +102,8 @@ def dec_cols(e):
         return None
     if e['k'] == 'slice':
         return slice(e['a'], e['b'], e.get('s'))
+    if e['k'] == 'mask':
+        return np.array(e['v'], dtype=bool) if e['as'] == 'array' else [bool(x) for x in e['v']]
     if e['k'] == 'idx':
         return list(e['v']) if e['as'] == 'list' else np.array(e['v'], dtype=e['as'])
     raise ValueError(e['k'])
@@ -220,6 +223,12 @@ def gen(rng, prop, tier):
                     continue
                 if rng.random() < 0.22:
                     cols = gen_cols(rng, widths[h], p_none=0.0)
+                    if rng.random() < 0.12:
+                        # a boolean channel mask (NumPy semantics: the columns where it is True)
+                        mask = [rng.random() < 0.6 for _ in range(widths[h])]
+                        if not any(mask):
+                            mask[rng.randrange(widths[h])] = True
+                        cols = {'k': 'mask', 'v': mask, 'as': rng.choice(['array', 'list'])}
                     w = len(np.arange(widths[h])[dec_cols(cols)])
                     if w < 1:
                         continue
@@ -242,7 +251,12 @@ def gen(rng, prop, tier):
                                 h = nh - 1 if ops[-1]['o'] in ('add', 'mul') else h
                     else:
                         k = rng.choice([0.5, 2.5, -1.5, 1.0, 3.0, -0.25])
-                    ops.append({'op': 'derive', 'h': h, 'o': o, 'k': k})
+                    op_ = {'op': 'derive', 'h': h, 'o': o, 'k': k}
+                    if k is not None and not o.startswith('r') and rng.random() < 0.15:
+                        # a NumPy scalar operand (strongly typed under NEP 50)
+                        op_['knp'] = rng.choice(['float32', 'float64', 'int16', 'int64']) \
+                            if isinstance(k, int) else rng.choice(['float32', 'float64'])
+                    ops.append(op_)
                     widths[nh] = widths[h]
                 depth[nh] = depth[h] + 1
                 nh += 1
@@ -642,9 +656,18 @@ def _execute(plan, ctx, cfg, prop):
                 new = max(handles) + 1
                 E = eager[h]
                 if k == 'derive':
+                    kval = op['k']
+                    # (reflected operators never get a NumPy scalar: `np.int64(3) + reader` makes
+                    # NumPy convert the scalar to a Python int before the reader ever sees it)
+                    if op.get('knp') and kval is not None and not op['o'].startswith('r'):
+                        try:
+                            kval = np.dtype(op['knp']).type(kval)
+                            ctx.probe('numpy_scalar_operand')
+                        except (OverflowError, ValueError):
+                            kval = op['k']
                     try:
                         with np.errstate(all='ignore'):
-                            E2 = _apply_eager(E, op['o'], op['k'])
+                            E2 = _apply_eager(E, op['o'], kval)
                     except Exception:
                         ctx.skipped['eager-evaluation-raises'] += 1
                         # keep handle numbering stable: the slot aliases its parent
@@ -654,7 +677,7 @@ def _execute(plan, ctx, cfg, prop):
                         cols_seen[new] = cols_seen[h]
                         arith_seen[new] = arith_seen[h]
                         continue
-                    H2 = ctx.real('derive', _apply_lazy, handles[h], op['o'], op['k'])
+                    H2 = ctx.real('derive', _apply_lazy, handles[h], op['o'], kval)
                     if op['o'].startswith('r'):
                         ctx.probe('reflected_operator')
                     if last_derive.get(h) == op['o']:
@@ -670,6 +693,8 @@ def _execute(plan, ctx, cfg, prop):
                 else:
                     co = dec_cols(op['cols'])
                     key = str(op['cols'])
+                    if op['cols']['k'] == 'mask':
+                        ctx.probe('boolean_mask_selection')
                     if key in cols_used and cols_used[key] != h:
                         ctx.probe('equal_cols_on_two_handles')
                     cols_used[key] = h
